@@ -25,7 +25,8 @@ Inductive val :=
 | VC (c : ctype)
 | VM (m : mtype)
 | VB (l : list byte)
-| VO (o : option Z).         (* Option<i16> *)
+| VO (o : option Z)          (* Option<i16> *)
+| VTup (l : list val).       (* a tuple / identifier returned by a reader *)
 
 Definition env := list (string * val).
 Fixpoint lookup (x : string) (e : env) : option val :=
@@ -204,6 +205,7 @@ Section Eval.
                         | Ok (VZ z) => Ok (VB (bytes_of en' w z))
                         | Ok _ => stuck | Err e => Err e | Panic s => Panic s
                         end
+    | _ => stuck        (* reader constructs: Thrift/PrimOpsRSem.v *)
     end.
 
   Fixpoint evs (c : wctx) (en : env) (l : list expr) : res (list val) :=
@@ -358,6 +360,7 @@ Section Eval.
     | SInsert e =>
         rbind (ev c en e) (fun v => match v with VB l => Ok (mkE en c (e_out st ++ [Node l])%list (e_ret st)) | _ => stuck end)
     | SReturnOk => Ok (mkE en c (e_out st) true)
+    | _ => stuck
     end.
 
   Fixpoint execs (l : list stmt) (st : est) : res est :=
